@@ -706,8 +706,8 @@ def admin_of_real(blk):
 # --------------------------------------------------------------------------- Coq terms (Model.Bundle)
 
 def _coq_bytes(data):
-    ''' Octets as a plain list literal (Lib.Bytes.unhex costs a long division per octet of a number of
-    8*len bits - cubic in the length - so it is not used here). '''
+    ''' Octets as a plain list literal.  (Lib.Bytes.unhex costs a long division per octet of a number of 8*len
+    bits - cubic in the length - so it is not used; elaborating the literal is what dominates a case.) '''
     data = bytes(data)
     if len(data) == 0:
         return '(@nil N)'
